@@ -203,6 +203,7 @@ pub fn run_generated(check: &dyn Check, cases: u64, seed: u64, threads: usize) -
                     let mut ctx = Ctx { thread: th, node: None };
                     let stats = std::cell::RefCell::new(Stats::default());
                     let counting = std::cell::Cell::new(true);
+                    let first_failing: std::cell::RefCell<Option<Value>> = std::cell::RefCell::new(None);
                     let config = Config {
                         cases: per_thread as u32,
                         rng_seed: RngSeed::Fixed(seed.wrapping_mul(1_000_003).wrapping_add(th as u64 * 7919 + 1)),
@@ -239,8 +240,11 @@ pub fn run_generated(check: &dyn Check, cases: u64, seed: u64, threads: usize) -
                                 if known.iter().any(|k| *k == sig) {
                                     return Ok(());
                                 }
-                                if counting.get() && std::env::var("VERIF_DEBUG").is_ok() {
-                                    eprintln!("FIRST FAILURE {sig}: {}", detail.chars().take(600).collect::<String>());
+                                if counting.get() {
+                                    if std::env::var("VERIF_DEBUG").is_ok() {
+                                        eprintln!("FIRST FAILURE {sig}: {}", detail.chars().take(600).collect::<String>());
+                                    }
+                                    *first_failing.borrow_mut() = Some(case.clone());
                                 }
                                 counting.set(false);
                                 Err(TestCaseError::fail(format!("{sig}: {detail}")))
@@ -252,7 +256,23 @@ pub fn run_generated(check: &dyn Check, cases: u64, seed: u64, threads: usize) -
                         stop.store(true, Ordering::Relaxed);
                         let case = check.decode(&tape, th);
                         let out = check.eval(&case, &mut ctx_cell.borrow_mut());
-                        let (signature, detail) = match out.verdict {
+                        let mut case = case;
+                        let mut verdict = out.verdict;
+                        if !matches!(verdict, Verdict::Fail(..)) {
+                            // the shrunk case does not fail (again): a defect whose manifestation is itself
+                            // nondeterministic. Re-evaluate the case that failed first; if it fails again it is reported.
+                            if let Some(orig) = first_failing.borrow().clone() {
+                                for _ in 0..6 {
+                                    let again = check.eval(&orig, &mut ctx_cell.borrow_mut());
+                                    if let Verdict::Fail(s, d) = again.verdict {
+                                        verdict = Verdict::Fail(s, format!("(manifests nondeterministically; un-shrunk case) {d}"));
+                                        case = orig.clone();
+                                        break;
+                                    }
+                                }
+                            }
+                        }
+                        let (signature, detail) = match verdict {
                             Verdict::Fail(s, d) => (s, d),
                             other => {
                                 if std::env::var("VERIF_DEBUG").is_ok() {
@@ -373,7 +393,7 @@ impl Report {
         }
         let mut replay_paths = vec![];
         for (i, f) in self.violations.iter().enumerate() {
-            let dir = format!("{VERIF_ROOT}/replays/found");
+            let dir = std::env::var("VERIF_FOUND_DIR").unwrap_or_else(|_| format!("{VERIF_ROOT}/replays/found"));
             let _ = std::fs::create_dir_all(&dir);
             let path = format!("{dir}/{}-{}-{:016x}.json", self.id, self.tier, hash_value(&f.case) ^ i as u64);
             let doc = json!({"property": self.id, "signature": f.signature, "detail": f.detail, "case": f.case});
@@ -415,8 +435,10 @@ impl Report {
             "known_findings_reported": self.known_lines,
             "replays": replay_paths,
         });
-        let _ = std::fs::create_dir_all(format!("{VERIF_ROOT}/evidence"));
-        let path = format!("{VERIF_ROOT}/evidence/{}.json", self.id);
+        // (the registered commands always write /verif/evidence; the override exists for trying seeded changes)
+        let evdir = std::env::var("VERIF_EVIDENCE_DIR").unwrap_or_else(|_| format!("{VERIF_ROOT}/evidence"));
+        let _ = std::fs::create_dir_all(&evdir);
+        let path = format!("{evdir}/{}.json", self.id);
         std::fs::write(&path, serde_json::to_string_pretty(&ev).unwrap()).expect("write evidence");
         println!(
             "{} {}: evaluations={} distinct_nontrivial={} skipped={} inconclusive={} known_hits={} violations={} wall={:.1}s",
